@@ -424,6 +424,29 @@ func (w *World) lenBoundD(v ssa.Value, at ssa.Instruction, d int) (lo, hi int64,
 		// slice parameter of a callee being summarised for one call site: the argument's length
 		if iv, okE := w.lenParamEnv[x]; okE {
 			lo, hi, ok = iv[0], iv[1], true
+		} else if isNewHelper(x.Parent()) && d < 8 {
+			// parameter of a helper the rules do not know: at least what every call site passes
+			idx := paramIndex(x.Parent(), x)
+			cs := w.callersOfCached(x.Parent())
+			if idx >= 0 && len(cs) > 0 {
+				var jl, jh int64 = inf, -inf
+				all := true
+				for _, c := range cs {
+					if idx >= len(c.Common().Args) {
+						all = false
+						break
+					}
+					l, h, k := w.lenBoundD(c.Common().Args[idx], c.(ssa.Instruction), d+3)
+					if !k {
+						all = false
+						break
+					}
+					jl, jh = min64(jl, l), max64(jh, h)
+				}
+				if all {
+					lo, hi, ok = jl, jh, true
+				}
+			}
 		}
 	case *ssa.Const:
 		if s, isS := constString(x.Value); isS {
@@ -696,6 +719,31 @@ func (w *World) mapLenBound(m ssa.Value, at ssa.Instruction) (lo, hi int64, ok b
 	l, h, k := w.factBound("len("+render(m)+")", at, 0)
 	if k {
 		lo, hi, ok = max64(lo, l), min64(hi, h), true
+	}
+	if pr, isP := m.(*ssa.Parameter); isP && isNewHelper(pr.Parent()) {
+		// map handed to a helper the rules do not know: at least as many entries as at every call site
+		idx := paramIndex(pr.Parent(), pr)
+		cs := w.callersOfCached(pr.Parent())
+		if idx >= 0 && len(cs) > 0 {
+			var jl int64 = inf
+			all := true
+			for _, c := range cs {
+				if idx >= len(c.Common().Args) {
+					all = false
+					break
+				}
+				l, _, k := w.mapLenBound(c.Common().Args[idx], c.(ssa.Instruction))
+				if !k {
+					all = false
+					break
+				}
+				jl = min64(jl, l)
+			}
+			if all {
+				lo, ok = max64(lo, jl), true
+			}
+		}
+		return
 	}
 	mk, isMk := m.(*ssa.MakeMap)
 	if !isMk {
